@@ -152,7 +152,7 @@ def run(tier):
     if tier == "quick":
         rnd0 = random.Random(sd)
         hs = [h for h in hs if h["kind"] in ("red", "alpha") or rnd0.random() < 0.35]
-    items = [(h["kind"], h["settled"], h["hist"], h["blocks"], 100 + (k % 7)) for k, h in enumerate(hs)]
+    items = [(h["kind"], h["settled"], h["hist"], h["blocks"], (0 if k % 9 == 0 else 100 + (k % 7))) for k, h in enumerate(hs)]     # seed 0 is a seed
     out = common.pmap(run_model_history, items, chunksize=64)
     for it, probs in zip(items, out):
         V.case({"kind": it[0], "settled": it[1], "hist": it[2]}, True)
@@ -181,7 +181,7 @@ def run(tier):
             sizes.insert(rnd.randint(0, len(sizes)), rnd.choice([65536, 65537, 70000, 131073]))
         specs.append(dict(kind=["white", "red", "alpha", "pink"][k % 4], seed=rnd.randrange(2 ** 31), settled=bool(k % 3 == 0), sizes=sizes))
     for k in range(4):             # runs of single samples across several refills of the real 4096-sample prefetch buffer
-        specs.append(dict(kind=["white", "red", "alpha", "pink"][k], seed=rnd.randrange(2 ** 31), settled=False, sizes=[1, 4095, 1, 4096, 3000], by_sample=True))
+        specs.append(dict(kind=["white", "red", "alpha", "pink"][k], seed=(0 if k % 2 else rnd.randrange(2 ** 31)), settled=False, sizes=[1, 4095, 1, 4096, 3000], by_sample=True))
     trs = common.pmap(record_long, specs, chunksize=1)
     vd, tres = traces.validate("NoiseTrace", f"{PID}_trace", trs)
     V.model(tres, "NoiseTrace.tla (long random call sequences)")
